@@ -69,9 +69,7 @@ def afterExp : Str → Str
 def decFragment (s : Str) : Bool :=
   let t := dropUnderscores (strip s)
   let t := match t with | '+' :: r => r | '-' :: r => r | r => r
-  (match t with
-   | c :: _ => !(lowerC c == 'i' || lowerC c == 'n' || lowerC c == 's')
-   | [] => true) && (afterExp t).length ≤ 3
+  (afterExp t).length ≤ 3
 
 def tokShort (t : Option NumTok) : Bool :=
   match t with
@@ -190,7 +188,7 @@ def lexLine (st : St) (d : Dt) (s : Str) (nz : Bool := true) : String :=
           let eqB := match mkLex (some d) l1.lex false with
             | some r => (match l1.eq r with | some true => "1" | some false => "0" | none => "TypeError")
             | none => "raise"
-          let base := s!"lex|{showIll l0.ill}|{canon l0.value}|{b01 (Spec.validLex d l1.lex)}|{backS}|{b01 (n1.lex == l1.lex)}|{b01 (n2.lex == n1.lex)}|{showIll l1.ill}|{canon l1.value}|{eqB}|{specValue d s}"
+          let base := s!"lex|{showIll l0.ill}|{canon l0.value}|{b01 (Spec.validLex d l1.lex)}|{backS}|{if !nz && !st.spell then "-" else b01 (n1.lex == l1.lex)}|{b01 (n2.lex == n1.lex)}|{showIll l1.ill}|{canon l1.value}|{eqB}|{specValue d s}"
           if st.spell then s!"{base}|{showCps l0.lex}|{showCps l1.lex}|{showCps n1.lex}|{showCps n2.lex}" else base
         | none => "lex|raise"
       | none => "lex|raise"
@@ -269,7 +267,7 @@ def flexLine (st : St) (s : Str) (nz : Bool) : String :=
         | some x, some y => b01 (x.pyEq y)
         | none, none => "1"
         | _, _ => "0"
-      let base := s!"lex|{illS}|{canonF v}|{b01 (Spec.doubleLex l1)}|{canonF back}|{b01 (n1 == l1)}|{b01 (n2 == some n1)}|{illS}|{canonF v}|{eqB}|-"
+      let base := s!"lex|{illS}|{canonF v}|{b01 (Spec.doubleLex l1)}|{canonF back}|{if !nz && !st.spell then "-" else b01 (n1 == l1)}|{b01 (n2 == some n1)}|{illS}|{canonF v}|{eqB}|-"
       if st.spell then s!"{base}|{showCps s}|{showCps l1}|{showCps n1}|{showCps n1}" else base
 
 def fspec? : List String → Option FVal
